@@ -15,7 +15,7 @@ func init() {
 			"context cancellation and coincident pairs} x reconnect issued from {the DISCONNECTED handler, another goroutine} x 1..5 connect/disconnect cycles x tracking on/off (welcome confirming or changing the nick) x client pings x GOMAXPROCS; " +
 			"curated witnesses of the known failure shapes first, then PRNG draws from the grid. Oracles: goroutine-census wait-for proof when Close/DISCONNECTED does not complete, leak census after the last DISCONNECTED, " +
 			"and for every reconnect: Connect's error, registration lines on the new transport, two marker round trips, Connected()/socket still up, tracker reset. A scenario is non-trivial when >= 1 library goroutine was blocked on a full queue, " +
-			"Loopback causes also: a context deadline (the next connect has none) and Close called from a background handler. a gate or the socket at teardown; distinct_nontrivial = distinct (cause set, blocked set) fingerprints among those. Loopback mode: 1..3 connect/disconnect cycles per client over real TCP sockets dialled directly (no proxy) against an in-process server that either closes its side at the client's end of stream or keeps the socket open for ever; causes {Close, cancellation, server close, server reset}; the same completion proof (goroutines parked in the network poller count as blocked: every socket's other end is in this process), leak census and reconnect checks.",
+			"Loopback causes also: a context deadline (the next connect has none) and Close called from a background handler. Servers of the PRNG scenarios may say 'ERROR :Closing Link' before they hang up; the next connection is then watched past a short Config.Timeout. a gate or the socket at teardown; distinct_nontrivial = distinct (cause set, blocked set) fingerprints among those. Loopback mode: 1..3 connect/disconnect cycles per client over real TCP sockets dialled directly (no proxy) against an in-process server that either closes its side at the client's end of stream or keeps the socket open for ever; causes {Close, cancellation, server close, server reset}; the same completion proof (goroutines parked in the network poller count as blocked: every socket's other end is in this process), leak census and reconnect checks.",
 		Assumptions: []string{
 			"'bounded time' is restated as: after the last harness action the teardown reaches completion without further input; a dead state is proven from two identical all-blocked goroutine censuses, never inferred from a timeout",
 			"flood control is off except in the dedicated flood batches, where the sender sleeps inside write at teardown (timer sites are recognised by the oracle: never a dead state)",
